@@ -449,6 +449,14 @@ def run_c02(rep, tier, seed, nproc=8):
                     seen.add(sig)
                     rp = write_replay("C02", "solve_large_%s" % f["kind"], dict(engine="solve", property="C02", **f))
                     rep.violation(sig, f["detail"], rp)
+        for f in programs.many_key_programs(tier):
+            rep.evaluations += 1
+            if f is not None:
+                sig = "solve:fallback:%s:many-keys" % f["kind"]
+                if sig not in seen:
+                    seen.add(sig)
+                    rp = write_replay("C02", "solve_manykeys_%s" % f["kind"], dict(engine="solve", property="C02", **f))
+                    rep.violation(sig, f["detail"], rp)
         for f in programs.wide_constant_programs(tier, use_solve=True):
             rep.evaluations += 1
             if f is not None:
@@ -469,6 +477,16 @@ def run_c02(rep, tier, seed, nproc=8):
 
 
 def replay_c02(payload):
+    if "how" not in payload:
+        # deterministic families (large, wide-operator, wide-constant, many-keys programs): re-run them and report what still fails
+        with Env():
+            bad = [f for f in list(programs.large_structured_programs("quick", use_solve=True)) + list(programs.many_key_programs("quick"))
+                   + list(programs.wide_constant_programs("quick", use_solve=True)) + list(programs.wide_operator_programs("quick", use_solve=True)) if f is not None]
+        for f in bad[:5]:
+            print("still fails:", f["detail"][:300])
+        if not bad:
+            print("the deterministic program families agree now")
+        return 1 if bad else 0
     with Env():
         s = programs.build_random(payload["how"]["seed"], depth=payload["how"]["depth"])
         f = programs.check_solve(s, payload["keys"], backend=payload["backend"])
